@@ -15,12 +15,16 @@ import (
 	"verifharness/internal/cases"
 	"verifharness/internal/cq"
 	"verifharness/internal/framefmt"
+	"verifharness/internal/macfmt"
 	"verifharness/internal/noise"
 	"verifharness/internal/reuse"
 )
 
 // nr drives the unrelated library calls made between the compared calls
 var nr *cq.RNG
+
+// theSet: where Go-side failures found inside helper functions are reported
+var theSet *cases.Set
 
 func marshal(p lorawan.PHYPayload) (b []byte, s string) {
 	defer func() {
@@ -47,6 +51,7 @@ func unmarshal(b []byte) (q lorawan.PHYPayload, s string) {
 	if err := q.UnmarshalBinary(in); err != nil {
 		return q, cq.Err
 	}
+	reuse.CheckIsolation(theSet, b, in, &q)
 	return q, cq.Ok(framefmt.Phy(q, framefmt.DecodedFOptsLen(b)))
 }
 
@@ -175,6 +180,7 @@ func main() {
 	s := cases.New("C01", dir, "LW.Corr.C01",
 		"spec-valid frames: 4 data MTypes x 32 FCtrl flag combinations cycled x FOpts length 0..15 (MAC commands or raw) x FPort absent/0/1..255 x FRMPayload lengths {0,1,15,16,17,31,32,33,100,241,242,random}; join-request, join-accept (CFList absent / channels / masks), rejoin 0/1/2, proprietary; plus a malformed stream (payload type not matching MType, FOpts 16..300 bytes, JoinNonce >= 2^24, FPort absent with payload, MAC command on port > 0, RXDelay > 15, nil payloads). All cases distinct by construction.")
 	s.ShardSize = 250
+	theSet = s
 	s.Watchdog(3 * time.Second)
 	n := 260
 	if thorough {
@@ -254,6 +260,34 @@ func main() {
 				o.FOptsBytes, o.FOptsRaw = 256, true
 			}
 			p := framefmt.DataFrame(r, o)
+			if i%2 == 0 { // one out-of-range MAC command among valid ones, in FOpts or in a port-0 FRMPayload, not last
+				o2 := framefmt.Opt{MType: o.MType, Port: -1, FOptsBytes: 15}
+				if r.Bool() {
+					o2 = framefmt.Opt{MType: o.MType, Port: 0, FRMAsMAC: true, FRMLen: 10 + r.Intn(40)}
+				}
+				p = framefmt.DataFrame(r, o2)
+				m := p.MACPayload.(*lorawan.MACPayload)
+				list := &m.FHDR.FOpts
+				if o2.Port == 0 {
+					list = &m.FRMPayload
+				}
+				if len(*list) >= 2 {
+					up := o.MType == lorawan.UnconfirmedDataUp || o.MType == lorawan.ConfirmedDataUp
+					for tries := 0; tries < 50; tries++ {
+						b := macfmt.Builtin[r.Intn(len(macfmt.Builtin))]
+						if b.Up != up {
+							continue
+						}
+						pl := macfmt.Random(r, macfmt.KindIndex(b.Kind), false)
+						if _, err := pl.MarshalBinary(); err != nil {
+							(*list)[r.Intn(len(*list)-1)] = &lorawan.MACCommand{CID: b.CID, Payload: pl}
+							break
+						}
+					}
+				}
+				roundTrip(s, p, "data-invalid-command-not-last")
+				p = framefmt.DataFrame(r, o)
+			}
 			switch r.Intn(6) {
 			case 0:
 				p.MHDR.MType = lorawan.MType(r.Intn(8))
